@@ -44,6 +44,7 @@ FINGERPRINT = {'cellmlmanip/units.py': ['UnitStore.__init__', 'UnitStore.add_uni
 STRIP = re.compile(r'(?<![a-zA-Z0-9_])store[0-9]+_')
 DOCS = ['basic_ode.cellml', 'test_simple_odes.cellml']
 DOC_DIR = os.path.join(REPO, 'tests', 'cellml_files')
+HH = 'hodgkin_huxley_squid_axon_model_1952_modified.cellml'     # uses exp: only in the handler stream
 
 # name -> alternative meanings (lists of <unit> elements); the SAME name gets DIFFERENT meanings in different stores
 POOL = {
@@ -176,9 +177,9 @@ def gen_case(rng, models):
 
 def gen_handler(rng):
     """separate stream: the process-wide operator table is changed while model A exists"""
-    ops = [['model', None, _model_params(rng, True)] if rng.random() < 0.6 else ['load', rng.choice(DOCS), None],
+    ops = [['model', None, _model_params(rng, True)] if rng.random() < 0.5 else ['load', rng.choice(DOCS + [HH]), None],
            ['handler', 'exp'],
-           ['load', rng.choice(DOCS), rng.choice([None, 0])],
+           ['load', rng.choice(DOCS + [HH, HH]), rng.choice([None, 0])],
            ['model', rng.choice([None, 0]), _model_params(rng, True)],
            ['sing', 0], ['sing', 2], ['unhandler', 'exp'], ['sing', 0]]
     return {'kind': 'handler', 'ops': ops}
@@ -417,6 +418,7 @@ def impl(case):
     logging.disable(logging.CRITICAL)
     probes = _probe_names(case)
     slots, steps, leaks, notes, cur = [], [], [], {}, []
+    handler_on = False
     original_exp = cparser.SIMPLE_MATHML_TO_SYMPY_CLASSES['exp']
 
     class exp_(sympy.Function):
@@ -479,6 +481,10 @@ def impl(case):
                     share = None if op[2] is None or op[2] >= len(slots) else slots[op[2]]['store']
                     m = cellmlmanip.load_model(os.path.join(DOC_DIR, op[1]), unit_store=share)
                     slots.append({'store': m.units, 'model': m, 'probes': probes})
+                    if handler_on:
+                        # documented behaviour: the table changes how FUTURE documents are parsed
+                        notes.setdefault('parsed_with_handler', []).append(
+                            [op[1], any('exp_(' in str(e) for e in m.equations)])
                 elif kind == 'def':
                     expr = Parser._make_pint_unit_definition(None, op[2], op[3])
                     slots[target]['store'].add_unit(op[2], expr)
@@ -526,8 +532,10 @@ def impl(case):
                     r = _rule_observation(slots, target, notes)
                 elif kind == 'handler':
                     Transpiler.set_mathml_handler('exp', exp_)
+                    handler_on = True
                 elif kind == 'unhandler':
                     Transpiler.set_mathml_handler('exp', original_exp)
+                    handler_on = False
             except Exception as e:
                 r = 'err:' + type(e).__name__
             # ---- the snapshot oracle: nothing observable through any OTHER slot may have changed
@@ -904,8 +912,10 @@ def oracle(case, obs):
                     fails.append({'key': 'leak:names', 'detail': 'op %d %s gave %s' % (idx, op, r)})
             elif not (isinstance(r, list) and r[1] == want):
                 fails.append({'key': 'format-shows-prefix', 'detail': 'op %d %s gave %s' % (idx, op, r)})
-            elif r[2].endswith(want) and r[4] != r[3].replace(r[2][:len(r[2]) - len(want)], '') and x not in U.SI:
-                # the store's own prefix (read off the raw single name) removed by plain replacement
+            elif r[2].endswith(want) and x not in U.SI and r[4] != ' '.join(
+                    tok[len(r[2]) - len(want):] if tok.startswith(r[2][:len(r[2]) - len(want)]) else tok
+                    for tok in r[3].split(' ')):
+                # the store's own prefix (read off the raw single name) removed once from the front of every token
                 fails.append({'key': 'format-shows-prefix', 'detail': 'op %d %s composite gave %s' % (idx, op, r)})
     # (3) a conversion rule must at least stay inside its registry (inside it: recorded observation, see report)
     rule_at = [op[1] for op in case['ops'] if op[0] == 'rule']
